@@ -830,9 +830,10 @@ class TrigTime:
                     _LOGGER.error("once(%s): %s", match1[1].strip(), exc)
                     continue
                 day_offset = (now - this_t).days + 1
-                if day_offset != 0 and this_t != startup_time:
+                if day_offset != 0 and not (now == this_t and now == startup_time):
                     #
-                    # Try a day offset (won't make a difference if spec has full date)
+                    # Try a day offset (won't make a difference if spec has full date or is based on "now");
+                    # only at startup itself an instant equal to the startup time is kept (it runs right away)
                     #
                     this_t, _ = await cls.parse_date_time(match1[1].strip(), day_offset, now, startup_time)
                 startup = now == this_t and now == startup_time
